@@ -321,6 +321,19 @@ class Facts:
         self.fn = raw['functions']
         self.rec = raw['records']
         self.globals = list(raw['globals'].values())
+        # a constant table declared as std::array<T, N> is read by the rules like the built-in array T[N] it wraps: the type is
+        # rewritten, and the extra pair of braces of its initialiser (the aggregate around the array) removed
+        import re as _re
+        for g in self.globals:
+            m = _re.match(r'^(const )?std::array<(.*), (\d+)>$', (g.get('t') or '').strip())
+            if m and not g.get('std_array'):
+                g['std_array'] = True
+                g['t_declared'] = g['t']
+                g['t'] = f'{m.group(1) or ""}{m.group(2)}[{m.group(3)}]'
+                init = g.get('init')
+                if isinstance(init, dict) and init.get('k') == 'initlist' and len(init.get('elts', [])) == 1 \
+                        and isinstance(init['elts'][0], dict) and init['elts'][0].get('k') == 'initlist':
+                    g['init'] = init['elts'][0]
         self.enums = raw['enums']
         self.constructs = raw['constructs']
         self.units = raw['units']
